@@ -6,8 +6,9 @@
    Time is integer microseconds.  Every event carries the wall-clock reading `now` of the
    instant at which the tracker handles it (all `datetime.now()` calls inside one
    handler are taken at that single instant).
-   The valid-state sets, the critical error level and the minimum blocking duration come
-   from gen/BatteryStatus.v (regenerated from /repo on every run).
+   The valid-state sets, the critical error level, the minimum blocking duration and the
+   three methods of BlockingStatus come from gen/BatteryStatus.v (regenerated from /repo on
+   every run).
    Definitions only -- lemmas live in proofs/BatteryStatus*.v. *)
 From Coq Require Export String.
 From Verif Require Export model.Common gen.BatteryStatus.
@@ -28,23 +29,18 @@ Record cfg := mkC {
 (* __post_init__: last_blocking_duration := min_duration, blocked_until := None *)
 Definition blocking_init (c : cfg) : blocking := mkB (c_dmin c) None.
 
-(* BlockingStatus.block: returns the new object state and the returned duration *)
+(* BlockingStatus.block / unblock / is_blocked are the functions TRANSLATED from
+   _blocking_status.py (gen/BatteryStatus.v): each is the method as a pure function of the
+   object's fields and of the clock reading; `block` returns (returned duration,
+   last_blocking_duration, blocked_until).  proofs/BatteryStatusFacts.v shows them equal to
+   the readable forms block_hand / unblock_hand / is_blocked_hand. *)
 Definition block (c : cfg) (now : Z) (b : blocking) : blocking * Z :=
-  match b_until b with
-  | None => (mkB (c_dmin c) (Some (now + c_dmin c)), c_dmin c)
-  | Some u =>
-      if u >? now then (b, 0)
-      else let d := Z.min (2 * b_last b) (c_dmax c) in
-           (mkB d (Some (now + d)), d)
-  end.
+  let '(d, last, until) := BlockingStatus_block (c_dmin c) (c_dmax c) (b_last b) (b_until b) now in
+  (mkB last until, d).
 
-Definition unblock (b : blocking) : blocking := mkB (b_last b) None.
+Definition unblock (b : blocking) : blocking := mkB (b_last b) (BlockingStatus_unblock (b_until b)).
 
-Definition is_blocked (now : Z) (b : blocking) : bool :=
-  match b_until b with
-  | None => false
-  | Some u => u >? now
-  end.
+Definition is_blocked (now : Z) (b : blocking) : bool := BlockingStatus_is_blocked (b_until b) now.
 
 (* ------------------------------------------------------------------ messages *)
 Definition mem_str (s : string) (l : list string) : bool := existsb (String.eqb s) l.
